@@ -313,7 +313,12 @@ impl NormalizedDurationRecord {
     }
 
     pub(crate) fn sign(&self) -> TemporalResult<Sign> {
-        Ok(self.date.sign())
+        // NOTE: The time part decides the sign of a duration without a date part.
+        let date_sign = self.date.sign();
+        if date_sign != Sign::Zero {
+            return Ok(date_sign);
+        }
+        Ok(self.norm.sign())
     }
 }
 
